@@ -755,6 +755,31 @@ static string opNfaHist(const vector<string>& steps)
 			for (int alg = 0; alg < 4; ++alg) calls.push_back([&a, &b, alg]() { return faInclOne(a, b, alg); });
 			out << " v" << k << "=" << forkedSeq(calls, 5);
 		}
+		else if (op == "inclsim") {
+			// inclsim:i:j:rel – the two selections that take a simulation (ANTICHAINS_SIM = word 16 on (a, b); CONGR_DEPTH_SIM = word 17 on
+			// (a ⊎ b, b), the call `cli/operations.hh` makes); operands state-disjoint, rel = pairs p.q (q simulates p) over their states
+			FA& a = ent(1); FA& b = ent(2);
+			vector<std::pair<size_t, size_t>> ps;
+			size_t n = 0;
+			if (f.at(3) != "-") for (const string& e : split(f[3], ',')) {
+				size_t d = e.find('.');
+				ps.push_back(std::make_pair(toN(e.substr(0, d)), toN(e.substr(d + 1))));
+				n = std::max(n, std::max(ps.back().first, ps.back().second) + 1);
+			}
+			VATA::Util::BinaryRelation br(n, false);
+			for (auto& pq : ps) br.set(pq.first, pq.second, true);
+			AutBase::StateDiscontBinaryRelation::DictType dict;
+			for (size_t q = 0; q < n; ++q) dict.insert(std::make_pair(q, q));
+			AutBase::StateDiscontBinaryRelation sim(br, dict);
+			vector<std::function<char()>> calls;
+			calls.push_back([&]() -> char {
+				try { InclParam ip = mkParam(16); ip.SetSimulation(&sim); return FA::CheckInclusion(a, b, ip) ? '1' : '0'; }
+				catch (const NotImplementedException&) { return 'N'; } catch (const std::exception&) { return 'E'; } });
+			calls.push_back([&]() -> char {
+				try { InclParam ip = mkParam(17); ip.SetSimulation(&sim); FA u = FA::UnionDisjointStates(a, b); return FA::CheckInclusion(u, b, ip) ? '1' : '0'; }
+				catch (const NotImplementedException&) { return 'N'; } catch (const std::exception&) { return 'E'; } });
+			out << " vs" << k << "=" << forkedSeq(calls, 5);
+		}
 		else if (op == "inclall") {
 			// all 128 option words; words with the simulation bit are not driven ('-': the library cannot compute an NFA simulation)
 			FA& a = ent(1); FA& b = ent(2);
